@@ -247,6 +247,7 @@ func (x *c19) checkOrder() {
 			mark(g)
 		}
 	}
+	x.lateInstr, x.lateFn = afterClose, fnAfter
 	n := 0
 	perFn := map[*ssa.Function]int{}
 	for _, fn := range x.fns {
